@@ -268,6 +268,16 @@ func (cp *copier) walkHostFS(dest, src string, maxSymlinks int, includeMounts bo
 		}
 		if !strings.HasPrefix(target, "/") {
 			target = filepath.Join(filepath.Dir(src), target)
+		} else {
+			// Mount points and secret mounts are
+			// looked up by their canonical container
+			// path, so an absolute target spelled
+			// with "//", "/./" or a trailing slash
+			// must be cleaned too (as Join does for
+			// relative targets). Otherwise such a
+			// link to a secret mount would be copied
+			// as ordinary output.
+			target = filepath.Clean(target)
 		}
 		return cp.walkMount(dest, target, maxSymlinks-1, true)
 	}
